@@ -1140,6 +1140,11 @@ func (f *Frugal) validateConstant(constant *Constant) error {
 		}
 		return fmt.Errorf("Referenced constant %s not found", name)
 	} else if len(pieces) == 2 {
+		// A value of an enum of this file
+		if f.hasEnumValue(pieces[0], pieces[1]) {
+			return nil
+		}
+
 		// From an include
 		frugal := f
 		includeName := pieces[0]
@@ -1158,9 +1163,28 @@ func (f *Frugal) validateConstant(constant *Constant) error {
 		}
 		return fmt.Errorf("Referenced constant %s from include %s not found",
 			paramName, includeName)
+	} else if len(pieces) == 3 {
+		// A value of an enum of an include
+		if include, ok := f.ParsedIncludes[pieces[0]]; ok && include.hasEnumValue(pieces[1], pieces[2]) {
+			return nil
+		}
 	}
 
 	return fmt.Errorf("Invalid constant name %s", name)
+}
+
+// hasEnumValue indicates if this file defines the enum with the given value.
+func (f *Frugal) hasEnumValue(enumName, valueName string) bool {
+	for _, enum := range f.Enums {
+		if enumName == enum.Name {
+			for _, value := range enum.Values {
+				if valueName == value.Name {
+					return true
+				}
+			}
+		}
+	}
+	return false
 }
 
 func (f *Frugal) validateTypedefs() error {
